@@ -32,3 +32,11 @@ Theorem C08_false_for_off_target_prereq_error : forall f k,
   is_experiment f (plain_reason k) = false.
 Proof. exact is_experiment_other_stages. Qed.
 Print Assumptions C08_false_for_off_target_prereq_error.
+
+(* ---- the defect found in the unchanged repository, as a kernel-checked refutation of the original code ---- *)
+From LD Require Import Legacy.
+Theorem C08_legacy_refuted :
+  vr_result_legacy no_opts (CSingle user_a) exp_on_org (s "f") (s "salt") = Done (Ok (1%Z, true)) /\
+  vr_result no_opts (CSingle user_a) exp_on_org (s "f") (s "salt") = Done (Ok (1%Z, false)).
+Proof. exact Legacy.C08_legacy_refuted. Qed.
+Print Assumptions C08_legacy_refuted.
